@@ -79,8 +79,8 @@ add("C11", ENGINE_NET, "exploration", "deterministic simulation: stream faults (
 add("C14", ENGINE_NET, "exploration", "deterministic simulation: the real omniwitness.Main in a synctest bubble (fake clock, tickers, timeouts, backoff), stub logs over the reference tree, class-keyed seeded network faults, graceful restarts on SQLite, forks; bounded liveness in poll intervals",
     "Main runs with 1..4 stub logs (sumdb, tiles), in-memory or SQLite storage, the real http.Server on an in-memory listener; seeded scripts of growth across tile boundaries, growth under fault windows, restarts and a final fork; through HTTP GET the served checkpoint must catch up within 3 poll intervals once faults stop, be validly cosigned, never move backwards across restarts, and stay on the witnessed history after a fork.",
     BASE_NOTE + " Feeder goroutines are not individually scheduled in this world; faults are keyed by request class and occurrence.", "DESIGN.md 5/C14")
-add("C17", ENGINE_NET, "exploration", "finite enumeration by simulated boot: the real Main on each shipped configuration file against eight hostile networks for 10 simulated minutes, plus the loaders Main uses",
-    "Both shipped files are loaded through the functions Main uses (keys parse, IDs distinct, feeder types known, URLs well-formed, rekor treeID present, map and list agree) and Main is booted on each against eight hostile networks for 10 simulated minutes: it must neither return nor panic and each feeder must issue its first request to its configured host; it is then stopped and booted once more in the same process. Weak fit for the technique (a finite configuration); decided by running the system, exhaustive over entries.",
+add("C17", ENGINE_NET, "exploration", "finite enumeration by simulated boot: the real Main on each shipped configuration file against nine hostile networks for 10 simulated minutes, plus the loaders Main uses",
+    "Both shipped files are loaded through the functions Main uses (keys parse, IDs distinct, feeder types known, URLs well-formed, rekor treeID present, map and list agree) and Main is booted on each against nine hostile networks for 10 simulated minutes: it must neither return nor panic and each feeder must issue its first request to its configured host; it is then stopped and booted once more in the same process. Weak fit for the technique (a finite configuration); decided by running the system, exhaustive over entries.",
     BASE_NOTE, "DESIGN.md 5/C17")
 add("C19", ENGINE_NET, "exploration", "deterministic simulation with byzantine peers: seeded structure-aware mutation of requests through a faulty reader; each feeder/distributor cycle in a child-process bubble under a wall-clock watchdog against hostile log-signed checkpoints and faulty responses",
     "Mutated and random bodies (to 40 KB) are streamed to the real endpoint (no panic, documented status); one cycle of each real feeder and of the distributor runs in a watchdogged child bubble against peers with log-signed hostile sizes/roots and faulty responses and must end with a result or an error. One genuine defect (F4: sizes in [2^62,2^63) spin in x/mod tlog.ProveTree via the SumDB and Pixel feeders) is listed by signature; any other hang or panic is a VIOLATION.",
